@@ -1032,6 +1032,12 @@ func (self *Fork) doSplit(getBindings func() MarshalerMap) MetadataState {
 	if self.Split() {
 		if !self.split_has_run {
 			self.split_has_run = true
+			// Any stage defs and chunks loaded from an earlier attempt at
+			// the split are obsolete.  Clear them so they can be rebuilt
+			// from what this split returns.
+			self.stageDefs = &StageDefs{ChunkDefs: []*ChunkDef{new(ChunkDef)}}
+			self.chunks = nil
+			self.metadatasCache = nil
 			self.lastPrint = time.Now()
 			self.node.runSplit(self.fqname, self.split_metadata)
 		}
